@@ -1679,6 +1679,20 @@ def _initial_body_awake(mjm: mujoco.MjModel, nworld: int, init_asleep: bool) -> 
   return body_awake_np
 
 
+def _initial_history(mjm: mujoco.MjModel, mjd: mujoco.MjData) -> np.ndarray:
+  """History buffers of a reset MjData, time stamps rounded as reset_data rounds them (float32 products)."""
+  history = mjd.history.astype(np.float32)
+  timestep = np.float32(mjm.opt.timestep)
+  buffers = [(mjm.actuator_history[i, 0], mjm.actuator_historyadr[i], timestep) for i in range(mjm.nu)]
+  for i in range(mjm.nsensor):
+    interval = np.float32(mjm.sensor_interval[i, 0])
+    buffers.append((mjm.sensor_history[i, 0], mjm.sensor_historyadr[i], interval if interval > 0.0 else timestep))
+  for nsample, adr, period in buffers:
+    if nsample > 0 and adr >= 0:
+      history[adr + 2 : adr + 2 + nsample] = -np.arange(nsample, 0, -1, dtype=np.float32) * period
+  return history
+
+
 def make_data(
   mjm: mujoco.MjModel,
   nworld: int = 1,
@@ -1837,7 +1851,7 @@ def make_data(
     "njmax_pad": sizes["njmax_pad"],
     "njmax_nnz": njmax_nnz,
     # delay / interval buffers start as mj_resetData leaves them (time stamps before t = 0, zero samples)
-    "history": wp.array(np.tile(mjd.history, (nworld, 1)), shape=(nworld, mjm.nhistory), dtype=float),
+    "history": wp.array(np.tile(_initial_history(mjm, mjd), (nworld, 1)), shape=(nworld, mjm.nhistory), dtype=float),
     # world body
     "xquat": wp.array(np.tile(mjd.xquat, (nworld, 1)), shape=(nworld, mjm.nbody), dtype=wp.quat),
     "xmat": wp.array(np.tile(mjd.xmat, (nworld, 1)), shape=(nworld, mjm.nbody), dtype=wp.mat33),
